@@ -66,6 +66,9 @@ func dyn(u string, attempt int) (world.Resp, bool) {
 		switch kind {
 		case "small":
 			return world.Resp{Status: 200, Header: html, Body: `<!DOCTYPE html><html><body><img src="` + base + `/a.png"></body></html>`}, true
+		case "two": // two assets, fetched by two goroutines at once when --max-concurrent-assets allows
+			// on two hosts: neither waits for the other's limiter tokens, both requests leave at the same instant
+			return world.Resp{Status: 200, Header: html, Body: `<!DOCTYPE html><html><body><img src="http://h1.example` + base + `/a.png"><img src="http://h2.example` + base + `/b.png"></body></html>`}, true
 		case "spooled":
 			return world.Resp{Status: 200, Header: html, Body: `<!DOCTYPE html><html><body><img src="` + base + `/big.txt"></body></html>`}, true
 		case "cut-spooled":
@@ -97,7 +100,12 @@ func dyn(u string, attempt int) (world.Resp, bool) {
 			sb.WriteString(`</body></html>`)
 			return world.Resp{Status: 200, Header: html, Body: sb.String()}, true
 		}
-	case rest == "a.png":
+	case rest == "a.png" || rest == "b.png":
+		if kind == "two" {
+			// both answers take the same 10 ms: the two fetch goroutines come back from the network at the same
+			// instant, which is where one deviation is enough to interleave what they do with the response
+			png.DelayMs = 10
+		}
 		return png, true
 	case rest == "big.txt":
 		return world.Resp{Status: 200, Header: map[string]string{"Content-Type": "text/plain"}, Body: bigBody}, true
@@ -280,6 +288,11 @@ func scenarios(tier string) []scen {
 		}
 	}
 	rec(nil)
+	// the asset goroutines of one seed against each other: every schedule within two deviations (the sequences
+	// above run on the canonical schedule, which never overlaps two fetches in their critical parts)
+	for _, k := range []string{"two", "discarded-gzip"} {
+		out = append(out, scen{Seq: []string{k}, Workers: 1, Assets: 2, P: 2})
+	}
 	if tier == "thorough" {
 		for i := range out {
 			if len(out[i].Seq) <= 2 {
